@@ -46,6 +46,19 @@ def gen_case(rng, k):
             idirs = ["i1", "i2"]
         spell = [rng.choice(["canon", "dotdot", "dot", "symlink", "trailing"]) for _ in idirs]
         return {"files": files, "idirs": idirs, "spell": spell}
+    if k % 7 == 6:
+        # an include with a directory part is looked up next to the including file only: the same relative
+        # path under an -I directory (or under the main file's directory, for an included file) does not count
+        nm = rng.choice(NAMES)
+        v = rng.randint(0, 1)
+        if v == 0:
+            files = {"p/main.idl": {"includes": ["types/%s" % nm], "garbage": False}, "i1/types/%s" % nm: {"includes": [], "garbage": False}}
+        else:
+            files = {"p/main.idl": {"includes": ["../i2/mid.idl"], "garbage": False}, "i2/mid.idl": {"includes": ["sub/%s" % nm], "garbage": False},
+                     "p/sub/%s" % nm: {"includes": [], "garbage": False}, "i1/sub/%s" % nm: {"includes": [], "garbage": False}}
+        idirs = ["i1"]
+        spell = [rng.choice(["canon", "dotdot", "dot", "symlink", "trailing"]) for _ in idirs]
+        return {"files": files, "idirs": idirs, "spell": spell}
     if k % 7 == 5:
         # the same name in two search directories; the copy that is LATER in search order has been
         # included through a path with a directory part before the bare name is resolved: the bare
